@@ -346,11 +346,14 @@ def _factors(f, e):
     (`scanner->rules`, `new_scanner->rules`, `rules`, `context->rules`)
     normalised"""
     import re
-    from .C14 import canon
+    from .C14 import canon, rcanon
     e = cu.strip_casts(f, e)
+    # a local that merely names the size expression stands for that expression
+    if e is not None and cu.stable_def_of(f, e) is not None:
+        return _factors(f, cu.stable_def_of(f, e))
     if e is not None and e['k'] == 'bin' and e['op'] == '*':
         return _factors(f, f.kid(e, 0)) + _factors(f, f.kid(e, 1))
-    s_ = canon(f, e)
+    s_ = rcanon(f, e)
     s_ = re.sub(r'\b(\w+->)?rules->', 'RULES.', s_)
     return [s_]
 
